@@ -59,6 +59,9 @@ def conflicting(a, b):
     return (pa is not None and pa == pb) or (ca is not None and ca == cb) or a["op"] == "delete" or b["op"] == "delete"
 
 
+BIG_BASE = {"cfg": {"algo": "SHA-256", "depth": 2, "width": 2}, "docs": [{"pat": "6d", "n": 3 * 8192 + 5}],
+            "contents": [{"pat": "41", "n": 3 * 8192 + 1}, {"pat": "42", "n": 2 * 8192 + 77}]}
+BIG_CALLS = [{"op": "store", "pid": "p", "c": 0}, {"op": "store", "pid": "q", "c": 1}, {"op": "smeta", "pid": "q", "fmt": "f", "d": 0}]
 TWO_INST_START = [{"op": "store", "pid": "p", "c": X}, {"op": "store", "pid": "r", "c": X}, {"op": "store", "pid": "t", "c": X}]
 TWO_INST_CALLS = [{"op": "store", "pid": "q", "c": X}, {"op": "tag", "pid": "q", "cid": {"of": X}}, {"op": "store", "pid": "s", "c": X},
                   {"op": "tag", "pid": "s", "cid": {"of": X}}, {"op": "delete", "pid": "p"}, {"op": "delete", "pid": "r"}]
@@ -152,6 +155,13 @@ def enumerate_cases(tier):
     for a, b in TWO_INST_PAIRS:
         yield dict(BASE, start_name="p=X,r=X,t=X", start=TWO_INST_START, calls=[TWO_INST_CALLS[a], TWO_INST_CALLS[b]], mode="cd",
                    max_preempt=2 if tier == "quick" else 3, instances=[0, 1], family="two-instances-shared-list")
+    # 'different contents, one instance': two stores (and a store next to a store_metadata) of DIFFERENT multi-block contents through
+    # one FileHashStore; every read of the callers' SOURCE files is a scheduling point before the OS call and again when it has
+    # returned (the moment another thread can run between "buffer filled" and "buffer used"): a read buffer shared by the calls - a
+    # class attribute, a mutable default argument, one buffer per instance - mixes the contents up
+    for a, b in ((0, 1), (0, 2), (1, 1)):
+        yield dict(BIG_BASE, start_name="empty", start=[], calls=[BIG_CALLS[a], BIG_CALLS[(b + 1) % 3 if a == b else b]], mode="enum",
+                   max_preempt=1, source_reads=True, family="different-contents-one-instance")
     if tier == "thorough":
         # conflict-directed enumeration: every schedule with <=3 preemptions up to commutation of independent steps
         for sname in STARTS:
@@ -228,7 +238,8 @@ def run_case(case, ctx):
         n = 0
         for order, pre, ex in conc.single_preemption_schedules(world, calls, max_preempt=case.get("max_preempt", 1),
                                                                 firsts=case.get("firsts", (0, 1)),
-                                                                i_mod=tuple(case.get("i_mod", (1, 0)))):
+                                                                i_mod=tuple(case.get("i_mod", (1, 0))),
+                                                                **({"source_reads": True} if case.get("source_reads") else {})):
             ctx.count()
             n += 1
             judge(ctx, world, case, calls, order, pre, ex)
